@@ -18,11 +18,16 @@ deriving DecidableEq, Repr
 
 inductive RoundEnd where
   | ok | err | panic
+  /-- the callback panics after it has processed its guards -/
+  | latePanic
 deriving DecidableEq, Repr
 
 /-- one invocation of `on_evict`. `panic`: raised on entry, all guards are dropped by unwinding.
 `ok`/`err`: the guards are processed in order (default `rm`), then, if `recount`, the callback
-calls `num_entries_or_locked` and `keys_with_entries_or_locked` on the container, then it returns. -/
+calls `num_entries_or_locked` and `keys_with_entries_or_locked` on the container, then it returns.
+`latePanic`: the guards are processed (methods called, stashed ones moved out), then the callback panics and the
+unwinding drops the guards that are left; for the library that is the `err` round with a panic as its outcome
+(`Guard::drop` is the same code on both paths; which operations of distinct keys come first does not matter). -/
 structure Round where
   acts : List CandAct
   recount : Bool
@@ -158,6 +163,7 @@ def Api.lockPrelude (a : Api) (h k : Nat) (limit : Limit) (h0 : Nat) : Nat → L
           let seen := if round.recount then some ((count a2.s).2, (keys a2.s).2) else none
           let tr' := ⟨candKeys, seen⟩ :: tr
           if fin = .err then (a2, tr'.reverse, .err)
+          else if fin = .latePanic then (a2, tr'.reverse, .userPanic)
           else Api.lockPrelude a2 h k (.soft n script.tail) (h0 + cands.length) fuel tr'
       | o => (a1, tr.reverse, .out o)
 
